@@ -67,6 +67,8 @@ type Driver struct {
 	frozenAppend map[uint64]bool // append thread stalled
 	frozenApply  map[uint64]bool // apply thread stalled
 	loseUnsynced bool
+	holdTypes    map[pb.MessageType]bool // message types kept in the network (delayed)
+	sinceMaint   int
 }
 
 func pct(r *rand.Rand, p int) bool { return r.Intn(100) < p }
@@ -148,7 +150,7 @@ func GenCluster(r *rand.Rand, p Profile, seed int64, w Wish) JCluster {
 	}
 	if n < 5 && pct(r, p.Spare) {
 		cl.Nodes = append(cl.Nodes, mk(uint64(n+1), false))
-		if n < 4 && pct(r, 30) {
+		if n < 4 && (pct(r, 30) || p.Spare >= 100) {
 			cl.Nodes = append(cl.Nodes, mk(uint64(n+2), false))
 		}
 	}
@@ -158,7 +160,8 @@ func GenCluster(r *rand.Rand, p Profile, seed int64, w Wish) JCluster {
 
 func NewDriver(c *Cluster, r *rand.Rand, p Profile) *Driver {
 	d := &Driver{c: c, r: r, p: p, nextPid: 1, nextRid: 1, blocked: map[[2]uint64]bool{},
-		frozenReady: map[uint64]bool{}, frozenAppend: map[uint64]bool{}, frozenApply: map[uint64]bool{}}
+		frozenReady: map[uint64]bool{}, frozenAppend: map[uint64]bool{}, frozenApply: map[uint64]bool{},
+		holdTypes: map[pb.MessageType]bool{}}
 	c.rtoDraw = func(id uint64, et int) int { return et + r.Intn(et) }
 	return d
 }
@@ -262,6 +265,11 @@ func (d *Driver) Step() bool {
 		p.Campaign = min(p.Campaign, 1)
 		p.Restart *= 3
 	}
+	// a contract-following application provides a usable snapshot when a follower needs one
+	if d.sinceMaint++; d.sinceMaint >= 25 {
+		d.sinceMaint = 0
+		d.maintainSnapshots()
+	}
 	ups := d.upNodes()
 	for _, n := range ups {
 		isLeader := n.RN.BasicStatus().RaftState == raft.StateLeader
@@ -325,7 +333,7 @@ func (d *Driver) Step() bool {
 	if len(c.Net) > 0 {
 		var deliverable []*NetMsg
 		for _, nm := range c.Net {
-			if d.linkOK(nm.M.GetFrom(), nm.M.GetTo()) && c.up(nm.M.GetTo()) != nil {
+			if d.linkOK(nm.M.GetFrom(), nm.M.GetTo()) && c.up(nm.M.GetTo()) != nil && !d.holdTypes[nm.M.GetType()] {
 				deliverable = append(deliverable, nm)
 			}
 		}
@@ -512,6 +520,18 @@ func (d *Driver) Stabilize(rounds int) {
 	}
 	for _, id := range c.IDs {
 		c.Do(Step{Act: "Stabilized", Node: id, K: uint64(rounds)})
+	}
+}
+
+func (d *Driver) maintainSnapshots() {
+	for _, id := range d.c.IDs {
+		n := d.c.up(id)
+		if n == nil {
+			continue
+		}
+		if _, hi := d.c.snapBounds(n); hi > 0 && d.needsSnapshot(n) {
+			d.c.Do(Step{Act: "Snapshot", Node: id, K: hi})
+		}
 	}
 }
 
